@@ -90,7 +90,9 @@ func (p ProfileSpec) removesFragment() bool {
 	return hasOpt(p.Opts, "remove-fragment")
 }
 
-func (p ProfileSpec) experimental() bool { return p.Name == "GoogleSafeBrowsing" || p.Name == "Semantic" }
+func (p ProfileSpec) experimental() bool {
+	return p.Name == "GoogleSafeBrowsing" || p.Name == "Semantic"
+}
 
 type Case17 struct {
 	Profile ProfileSpec `json:"profile"`
